@@ -536,7 +536,16 @@ func (g *Gen) Heredoc() ast.Vertex {
 	var parts []ast.Vertex
 	if nowdoc {
 		if g.chance(4, 5, "nonempty") {
-			s := indent + g.text(o, 5, false)
+			// nothing is interpolated in a nowdoc: variable look-alikes are plain text there
+			s := indent
+			for i, k := 0, g.rng(1, 3, "nowdocpieces"); i < k; i++ {
+				if g.chance(1, 3, "nowdocvar") {
+					g.feat("nowdoc-variable-lookalike")
+					s += g.pick("lookalike", "$a", "{$a}", "${a}", "$a[0]", "$a->b", "{$a->b[1]}", "$$a", "\\$a", "${a[1]}", "{$a}$b", "$") + g.pick("after", "", " ", "x")
+				} else {
+					s += g.text(o, 3, false)
+				}
+			}
 			parts = append(parts, g.strPart(s))
 		}
 	} else {
